@@ -374,3 +374,42 @@ func VerifC04_Identity() {
 }
 
 var _ = authorization.ApproveMethod
+
+// VerifC04_CreateValidatorIdentity: createValidator self-bonds the named account's coins. There is no staking authorization
+// for MsgCreateValidator, so a caller other than the signer can never be covered by a live staking grant: the call reaches
+// the staking module only when the signer calls the precompile itself for its own account, or when the account acted for
+// is the immediate caller (which then spends its own coins).
+func VerifC04_CreateValidatorIdentity() {
+	p, ctx, db := c04Setup()
+	caller := c04Addrs[zz.Choose("caller", 2)] // the signer itself or a contract
+	named := c04Addrs[zz.Choose("namedAccount", 3)]
+	value := zz.AnyAmount("value", 100)
+	zz.Assume(value.IsPositive())
+	// grant state signer -> caller: absent / generic for MsgCreateValidator / unlimited delegate grant
+	cvURL := sdk.MsgTypeURL(&stakingtypes.MsgCreateValidator{})
+	switch zz.Choose("grant", 3) {
+	case 1:
+		c04.grants[c04Key(caller.Bytes(), c04Origin.Bytes(), cvURL)] = &c04Grant{auth: authz.NewGenericAuthorization(cvURL)}
+	case 2:
+		c04.grants[c04Key(caller.Bytes(), c04Origin.Bytes(), DelegateMsg)] = &c04Grant{auth: &stakingtypes.StakeAuthorization{AuthorizationType: DelegateAuthz}}
+	}
+	c04.srvFail = zz.AnyBool("moduleRefuses")
+	args := []interface{}{
+		Description{Moniker: "m"},
+		Commission{Rate: big.NewInt(0), MaxRate: big.NewInt(0), MaxChangeRate: big.NewInt(0)},
+		big.NewInt(1), named, sdk.ValAddress(named.Bytes()).String(), "AAAAAAAAAAAAAAAAAAAAAAAAAAAAAAAAAAAAAAAAAAA=", value.BigInt(),
+	}
+	_, err := p.CreateValidator(ctx, c04Origin, &vm.Contract{CallerAddress: caller}, db, c04Method, args)
+	if err != nil {
+		zz.Assert(len(c04.msgs) == 0, "a failed call does not reach the staking module")
+		zz.Reach("rejected")
+		return
+	}
+	zz.Assert(len(c04.msgs) == 1, "exactly one message is handed to the staking module")
+	m := c04.msgs[0].(*stakingtypes.MsgCreateValidator)
+	zz.Assert(m.DelegatorAddress == sdk.AccAddress(named.Bytes()).String() && m.Value.Amount.Equal(value) && m.Value.Denom == "aISLM", "the self-bond is the named account's, of the value of the call")
+	zz.Assert(named == c04Origin || named == caller, "the account acted for is the transaction signer or the calling contract")
+	zz.Assert(caller == c04Origin || named == caller, "a contract cannot self-bond the signer's coins: no staking grant covers MsgCreateValidator [shape C04-F3 createValidator by a contract for the signer]")
+	zz.Reach("created")
+	zz.Reach("end")
+}
